@@ -73,6 +73,10 @@ fn rand_conformer(rng: &mut Rng) -> Conformer {
     for _ in 0..cnt(rng) {
         c.add_atom(full_atom(rng));
     }
+    // a conformer that is moved in may carry metadata of its own (which the receiver does not take over)
+    if rng.chance(1, 3) {
+        let _ = c.set_modification((rng.pick(&["SER", "MET"]).to_string(), rng.pick(&["PHOSPHOSERINE", "SELENOMETHIONINE"]).to_string()));
+    }
     c
 }
 fn rand_residue(rng: &mut Rng) -> Residue {
